@@ -272,7 +272,9 @@ def sysLine (m : MState) (line : String) : MState :=
     | none => m.emit s!"corrupt-nofile {name}"
   | "reload" :: top :: fam =>
     if !m.cleaned then m.emit "badcase reload-before-clean" else
-    let fam := top :: fam
+    -- the programs named after a `|` stay loaded as they are (they are only dumped)
+    let kept := (fam.dropWhile (· != "|")).drop 1
+    let fam := top :: fam.takeWhile (· != "|")
     let rno := m.rno + 1
     let blk := m.blocks.headD []
     let m := { m with rno := rno, blocks := m.blocks.drop 1 }
@@ -292,7 +294,7 @@ def sysLine (m : MState) (line : String) : MState :=
     let m := if ok then m else m.emit s!"loadfail {top}"
     let usedBin (tag : String) : Bool := evs.any (fun e => e == Ev.lb (tag ++ ".c") .use)
     -- dumps, in the order of the family list (duplicates of top removed)
-    let fam' := fam.eraseDups
+    let fam' := (fam ++ kept).eraseDups
     let m := fam'.foldl (fun m tag =>
       if !(sys1.w.loaded.contains tag) then m
       else
@@ -310,7 +312,7 @@ def sysLine (m : MState) (line : String) : MState :=
     let rl := blk.filter (·.startsWith "R ")
     let m :=
       if !ok then m
-      else if fam'.all (fun tag => !(sys1.w.loaded.contains tag) || usedBin tag) then
+      else if fam.eraseDups.all (fun tag => !(sys1.w.loaded.contains tag) || usedBin tag) then
         -- nothing was compiled: every call answers as after the last compile
         ((m.freshR.lookup top).getD ["model-no-fresh-calls"]).foldl MState.emit m
       else
